@@ -823,6 +823,18 @@ pub fn run_shard(ctx: &mut Ctx) {
     if ctx.prop == "C11" {
         check_file_names(ctx, &mut r);
     }
+    if ctx.prop == "C16" {
+        let n = if ctx.tier == Tier::Quick { 6 } else { 400 };
+        for _ in 0..n {
+            if !ctx.time_left() {
+                break;
+            }
+            if let Some(vi) = c16_concurrent(r.next()) {
+                ctx.out.viol(vi);
+            }
+            ctx.out.count("concurrent_rounds(4_readers+drainer)", 1);
+        }
+    }
     if ctx.prop == "C06" || ctx.prop == "C16" {
         // a partially ordered vote type (the tuple votes of the main harness types are totally ordered)
         let n = if ctx.tier == Tier::Quick { 60 } else { 3000 };
@@ -871,6 +883,89 @@ pub fn run_shard(ctx: &mut Ctx) {
         }
         h += 1;
     }
+}
+
+/// C16 under concurrency: reader threads (range reads, snapshot iteration, stat) run against a store whose cache
+/// holds evictable entries while another thread drains the cache and the caller keeps appending and flushing.
+/// Every call is wrapped in catch_unwind; a panic in any thread is a violation.
+pub fn c16_concurrent(seed: u64) -> Option<Viol> {
+    let mut r = Rng::new(seed);
+    let dir = util::fresh_dir("c16c");
+    let cfg = CfgSpec { max_records: Some(*r.pick(&[3usize, 5, 8])), read_buf: Some(64), ..Default::default() };
+    let mut st = match Store::open(&dir, &cfg, 1) {
+        Ok(s) => s,
+        Err(_) => {
+            util::remove_dir(&dir);
+            return None;
+        }
+    };
+    let mut next = 0u64;
+    for _ in 0..30 {
+        let _ = st.write(&Op::Append(vec![((1, next), format!("c16c-{}", next))]));
+        next += 1;
+    }
+    let _ = st.sync();
+    let panic_msg: std::sync::Mutex<Option<(String, String)>> = std::sync::Mutex::new(None);
+    let stop = std::sync::atomic::AtomicBool::new(false);
+    {
+        let rl = st.rl();
+        let (pm, stop) = (&panic_msg, &stop);
+        std::thread::scope(|sc| {
+            for t in 0..4u32 {
+                sc.spawn(move || {
+                    let mut n = 0;
+                    while !stop.load(std::sync::atomic::Ordering::Relaxed) && n < 3000 {
+                        n += 1;
+                        let res = match (t + n) % 3 {
+                            0 => store::guarded(|| rl.read(0, u64::MAX).count()).map(|_| ()).map_err(|p| ("read", p)),
+                            1 => store::guarded(|| {
+                                let mut d = rl.dump_data();
+                                d.iter().count()
+                            })
+                            .map(|_| ())
+                            .map_err(|p| ("dump_data_iter", p)),
+                            _ => store::guarded(|| {
+                                let _ = format!("{}", rl.stat());
+                            })
+                            .map_err(|p| ("stat", p)),
+                        };
+                        if let Err((what, p)) = res {
+                            *pm.lock().unwrap() = Some((what.to_string(), p));
+                            break;
+                        }
+                    }
+                });
+            }
+            sc.spawn(move || {
+                for _ in 0..400 {
+                    if let Err(p) = store::guarded(|| rl.drain_cache_evictable()) {
+                        *pm.lock().unwrap() = Some(("drain_cache_evictable".to_string(), p));
+                        break;
+                    }
+                    for _ in 0..50 {
+                        std::hint::spin_loop();
+                    }
+                }
+            });
+            // let them run against each other for a moment
+            for _ in 0..2000 {
+                std::thread::yield_now();
+                if pm.lock().unwrap().is_some() {
+                    break;
+                }
+            }
+            stop.store(true, std::sync::atomic::Ordering::Relaxed);
+        });
+    }
+    st.close();
+    util::remove_dir(&dir);
+    let got = panic_msg.lock().unwrap().take();
+    got.map(|(what, p)| Viol {
+        prop: "C16".into(),
+        sig: format!("C16:panic:{}_concurrent:{}", what, p.rsplit(" @ ").next().unwrap_or("?")),
+        text: format!("{} panicked while other threads were reading / draining the cache: {}", what, p),
+        replay: json!({"kind": "c16c", "seed": seed.to_string()}),
+    })
 }
 
 pub fn replay_file_name(v: &Value) -> Option<Viol> {
